@@ -6,7 +6,7 @@ LEVEL = 'proof'
 
 def build(ctx):
     common.encoder_tasks(ctx, lambda m: True, parts=('legal',))
-    common.pass_tasks(ctx, ['transform_compressible'])
+    common.pass_tasks(ctx, ['transform_compressible', 'resolve_immediates'])
     ctx.task('contracts.emit:task_emit_pass', 'resolve_instructions')
     ctx.trust(common.TRUST_BOUNDED)
 
